@@ -439,7 +439,11 @@ func (m *M) Finish() int {
 		v := m.viols[fp]
 		if v.Known {
 			f, _ := m.isKnown(fp)
-			fmt.Printf("KNOWN-FINDING: property=%s %s [%s] (%d occurrences this run)\n", m.Prop, f.What, fp, v.Count)
+			what := f.What
+			if len(what) > 180 {
+				what = what[:180] + "... (full text in known_findings.jsonl)"
+			}
+			fmt.Printf("KNOWN-FINDING: property=%s [%s] %s (%d occurrences this run)\n", m.Prop, fp, what, v.Count)
 			continue
 		}
 		unknown++
